@@ -1,5 +1,6 @@
 import SlVerif.Drv.Gf128
 import SlVerif.Drv.Matrix
+import SlVerif.Drv.Math
 /-
   sldriver: line-protocol server around the executable models.
   request:  `<ns> <op> <args…>`           (one line)
@@ -12,6 +13,7 @@ def dispatch (toks : List String) : IO String := do
   match toks with
   | "gf" :: rest => pure ((Drv.Gf.handle rest).getD "!bad-op")
   | "mat" :: rest => pure ((Drv.Matrix.handle rest).getD "!bad-op")
+  | "math" :: rest => pure ((Drv.Math.handle rest).getD "!bad-op")
   | ["ping"] => pure "pong"
   | _ => pure "!bad-op"
 
